@@ -80,6 +80,10 @@ pub struct Tab {
     pub altmask: u16,
     pub altpay: [u8; U],
     pub altprio: [u8; U],
+    /// keys whose stored item value (the part outside Eq/Hash) is not this check's
+    /// business: what happens to the item value of the element an update targets is
+    /// property C12's, and only C12's instances compare it
+    pub anypay: u16,
 }
 
 impl Tab {
@@ -92,7 +96,13 @@ impl Tab {
             altmask: 0,
             altpay: [0; U],
             altprio: [0; U],
+            anypay: 0,
         }
+    }
+
+    /// do not compare the stored item value of `k`
+    pub fn any_payload(&mut self, k: u8) {
+        self.anypay |= 1u16 << k;
     }
 
     /// `k` may also hold (pay, prio)
@@ -173,7 +183,10 @@ pub fn assert_cont<T: Q>(q: &T, want: &Tab) {
             Some((pay, prio)) => {
                 if want.altmask & (1u16 << i.key) == 0 {
                     assert!(p.0 == prio, "CONT: same priority as the reference");
-                    assert!(i.pay == pay, "CONT: same stored item value as the reference");
+                    assert!(
+                        i.pay == pay || want.anypay & (1u16 << i.key) != 0,
+                        "CONT: same stored item value as the reference"
+                    );
                 } else {
                     assert!(want.accepts(i.key, i.pay, p.0), "CONT: one of the pairs the reference allows");
                 }
@@ -198,7 +211,7 @@ pub fn assert_lookup<T: Q>(q: &mut T, want: &Tab, k: u8) {
         (None, None) => {}
         (Some((i, p)), Some((pay, prio))) => {
             assert!(i.key == k, "API: get returns the item asked for");
-            assert!(i.pay == pay, "API: get returns the stored item value");
+            assert!(i.pay == pay || want.anypay & (1u16 << k) != 0, "API: get returns the stored item value");
             assert!(p.0 == prio, "API: get returns the stored priority");
         }
         _ => assert!(false, "API: get presence agrees with the reference"),
@@ -207,8 +220,9 @@ pub fn assert_lookup<T: Q>(q: &mut T, want: &Tab, k: u8) {
         q.get_priority(&k).map(|p| p.0) == w.map(|x| x.1),
         "API: get_priority agrees with the reference"
     );
+    let anyp = want.anypay & (1u16 << k) != 0;
     assert!(
-        q.get_mut(&k).map(|(i, p)| (i.key, i.pay, p.0)) == w.map(|x| (k, x.0, x.1)),
+        q.get_mut(&k).map(|(i, p)| (i.key, if anyp { 0 } else { i.pay }, p.0)) == w.map(|x| (k, if anyp { 0 } else { x.0 }, x.1)),
         "API: get_mut agrees with the reference"
     );
     assert!(q.len() == want.count(), "API: len() is the number of distinct items");
